@@ -4,7 +4,7 @@
    rows are compared with the model enumeration as multisets (each assignment exactly once); composites / mixins are
    compared with the model applied to the child's recorded result. *)
 From Coq Require Import List ZArith QArith Qcanon Bool Arith.
-From Dimod Require Import Base.Util Model.Poly Model.HPoly Model.Samples Model.Comb Model.Solve.
+From Dimod Require Import Base.Util Model.Poly Model.HPoly Model.Samples Model.Comb Model.Feas Model.Solve.
 Import ListNotations.
 Open Scope Qc_scope.
 
@@ -80,8 +80,11 @@ Definition lowest_is_min (e : sample -> Qc) (vars : list label) (space : list (l
   | Some m => forallb (fun row => Qc_leb m (e (row_sample vars row))) space
   end.
 
+(* oracle: each assignment exactly once (multiset) and the lowest row optimal;
+   correspondence: the rows come in the model's enumeration ORDER (the solvers do not sort) *)
 Definition exact_ok (e : sample -> Qc) (vars : list label) (space : list (list Qc)) (r : result) : bool :=
-  rows_perm space (map (reindex_row vars (r_labels r)) (r_rows r)) && lowest_is_min e vars space r.
+  rows_perm space (map (reindex_row vars (r_labels r)) (r_rows r)) && lowest_is_min e vars space r &&
+  rows_eqb space (map (reindex_row vars (r_labels r)) (r_rows r)).
 
 (* DQM: variable i has label i; case c of variable i is label i*stride + c of the polynomial *)
 Definition qz (q : Qc) : Z := Qnum q.
@@ -89,14 +92,12 @@ Definition dqm_e (p : poly) (stride : nat) (s : sample) : Qc :=
   energy p (fun l => let v := (l / stride)%nat in
                      if Qc_eqb (s v) (zq (Z.of_nat (l mod stride))) then 1 else 0).
 
-Inductive sense := Le | Ge | Eq.
+(* hard constraints, decided by the C08 definition (Model/Feas.v) with ExactCQMSolver's default
+   tolerances atol = 1e-8, rtol = 1e-6 *)
+Definition cqm_atol : Qc := qc 1 100000000.
+Definition cqm_rtol : Qc := qc 1 1000000.
 Definition con_sat (s : sample) (c : poly * sense * Qc) : bool :=
-  let '(lhs, sn, rhs) := c in
-  match sn with
-  | Le => Qc_leb (energy lhs s) rhs
-  | Ge => Qc_leb rhs (energy lhs s)
-  | Eq => Qc_eqb (energy lhs s) rhs
-  end.
+  satisfied cqm_atol cqm_rtol (mkCon (fst (fst c)) (snd (fst c)) (snd c) None) s.
 
 Inductive comp :=
 | KPass
@@ -104,7 +105,8 @@ Inductive comp :=
 | KTruncS (agg : bool) (n : nat)
 | KPolymorph (poly : hpoly) (poly_vars : list label) (red : list (label * label * label)) (keep discard : bool)
 | KScale (orig : hpoly) (scalar : option Qc) (lr pr : Qc * Qc) (ign : list (list label)) (sent : hpoly)
-| KFixed (orig : hpoly) (fs : list (label * Qc)) (sent : hpoly).
+| KFixed (orig : hpoly) (fs : list (label * Qc)) (sent : hpoly)
+| KTrack (n : nat) (count : nat) (given tracked : poly) (tracked_out : result).
 
 Inductive mixdir := SpinViaQubo | BinaryViaIsing | SameVartype.
 
@@ -127,7 +129,15 @@ Inductive case :=
 | CExactCqm (obj : poly) (vars : list (label * vdom)) (groups : list (list label))
             (cons : list (poly * sense * Qc)) (res : result) (feas : list bool)
 | CComp (k : comp) (child res : result)
-| CMixin (d : mixdir) (n : nat) (vars : list label) (submitted sent : poly) (child res : result).
+| CMixin (d : mixdir) (n : nat) (vars : list label) (submitted sent : poly) (child res : result)
+(* the deterministic remainder of the stochastic samplers, on the rows they returned *)
+| CFromRows (pr : problem) (vars : list label) (res : result)
+| CSa (binary : bool) (vars : list label) (p : poly) (res : result)
+| CNull (vars : list label) (res : result)
+| CIdentity (g : isg) (num_reads : option nat) (pr : problem) (vars ls : list label) (conv : nat)
+            (init : list (list Qc)) (seen : option result)
+| CStruct (nodes : list label) (edges : list (label * label)) (vars : list label) (quad : list (label * label))
+          (rejected : bool) (child_calls : nat).
 
 Definition check_comp (k : comp) (child res : result) : bool :=
   match k with
@@ -145,6 +155,36 @@ Definition check_comp (k : comp) (child res : result) : bool :=
       hpoly_eqb q sent && res_equiv (polyscale_result orig k ign child) res
   | KFixed orig fs sent =>
       hpoly_eqb (hfix fs orig) sent && res_equiv (polyfixed_result orig fs child) res
+  | KTrack n count given tracked out =>
+      (* one call recorded; the recorded input is the given problem, the recorded output and the
+         returned sample set are the child's *)
+      (count =? 1)%nat && poly_coeff_eqb n given tracked && poly_pairs_eqb n given tracked &&
+      res_equiv child out && res_equiv (passthrough child) res
+  end.
+
+Definition conv_of (k : nat) : list Qc -> list Qc :=
+  match k with
+  | 1%nat => row_to_binary
+  | 2%nat => row_to_spin
+  | _ => fun r => r
+  end.
+
+Definition check_identity (g : isg) (num_reads : option nat) (e : sample -> Qc) (vars ls : list label)
+           (conv : nat) (init : list (list Qc)) (seen : option result) : bool :=
+  let extra := match seen with
+               | Some r => skipn (length init) (map (reindex_row ls (r_labels r)) (r_rows r))
+               | None => []
+               end in
+  match identity_sample g num_reads e vars ls (conv_of conv) init extra, seen with
+  | None, None => true
+  | Some m, Some r =>
+      res_equiv m r &&
+      (* the number of rows is num_reads (default: the number of initial states, or 1) *)
+      (length (r_rows r) =? match num_reads with
+                            | Some n => n
+                            | None => match length init with O => 1 | k => k end
+                            end)%nat
+  | _, _ => false
   end.
 
 Definition check_mixin (d : mixdir) (n : nat) (vars : list label) (submitted sent : poly)
@@ -180,6 +220,7 @@ Definition check (c : case) : bool :=
       let space := zrows (all_cases_cqm (map (@length label) groups) (map snd free)) in
       post (energy obj) vars res &&
       rows_perm space (map (reindex_row order (r_labels res)) (r_rows res)) &&
+      rows_eqb space (map (reindex_row order (r_labels res)) (r_rows res)) &&
       list_eqb Bool.eqb
         (map (fun row => forallb (con_sat (row_sample (r_labels res) row)) cns) (r_rows res)) feas &&
       (* the lowest feasible row is optimal among the feasible assignments of the model space *)
@@ -190,4 +231,15 @@ Definition check (c : case) : bool :=
       end
   | CComp k child res => check_comp k child res
   | CMixin d n vars submitted sent child res => check_mixin d n vars submitted sent child res
+  | CFromRows pr vars res =>
+      res_equiv (from_samples_bqm (prob_energy pr) vars (r_labels res) (r_rows res)) res
+  | CSa binary vars p res =>
+      res_equiv (sa_sample binary vars p (r_labels res)
+                   (if binary then map row_to_spin (r_rows res) else r_rows res)) res
+  | CNull vars res => res_equiv (null_sample vars) res
+  | CIdentity g num_reads pr vars ls conv init seen =>
+      check_identity g num_reads (prob_energy pr) vars ls conv init seen
+  | CStruct nodes edges vars quad rejected calls =>
+      Bool.eqb (negb (structured nodes edges vars quad)) rejected &&
+      (calls =? (if rejected then 0 else 1))%nat
   end.
